@@ -24,7 +24,7 @@ import time
 import traceback
 
 VERIF = os.path.dirname(os.path.dirname(os.path.abspath(__file__)))
-REPO = os.environ.get("TYPELIB_REPO", "/repo")
+REPO = os.environ.get("TYPELIB_REPO") or "/repo"
 COQ = os.path.join(VERIF, "coq")
 THEORIES = os.path.join(COQ, "theories")
 DYN = os.path.join(COQ, "dyn")
@@ -175,6 +175,29 @@ def parse_sexp(s: str):
 # The run
 # ----------------------------------------------------------------------------------
 
+def require_closure(vfiles: list[str]) -> list[str]:
+    """Files (relative to coq/) in the TL.* Require-closure of the given .v files."""
+    seen, todo = [], list(vfiles)
+    while todo:
+        f = todo.pop()
+        if f in seen:
+            continue
+        seen.append(f)
+        txt = open(os.path.join(COQ, f)).read()
+        txt = re.sub(r"\(\*.*?\*\)", " ", txt, flags=re.S)
+        for m in re.finditer(r"(?:From\s+TL\s+)?Require\s+(?:Import\s+|Export\s+)?([^.]*(?:\.[A-Za-z_][\w.]*)*)\s*\.(?:\s|$)", txt):
+            for name in m.group(1).split():
+                if name.startswith("TL."):
+                    rel = "theories/" + name[3:].replace(".", "/") + ".v"
+                elif m.group(0).startswith("From") and re.match(r"From\s+TL\s", m.group(0)):
+                    rel = "theories/" + name.replace(".", "/") + ".v"
+                else:
+                    continue
+                if os.path.exists(os.path.join(COQ, rel)):
+                    todo.append(rel)
+    return sorted(seen)
+
+
 class Violation(Exception):
     pass
 
@@ -234,23 +257,34 @@ class Run:
         self.oblige("lint:no-axioms-no-admits", not bad, "; ".join(bad[:5]))
         return not bad
 
-    def base_make(self):
-        """(Re)build the table-independent theories; no-op when up to date."""
+    def base_make(self, targets=()):
+        """(Re)build the table-independent theories this property needs (the Require-closure of its
+        COQ_TARGETS; all of the development when empty); no-op when up to date.  Full .vo build, never
+        -vos/-vok.  A property-specific project file keeps another property's broken file out of the way."""
         os.makedirs(COQ, exist_ok=True)
+        if not targets:
+            rc, out, err = sh(["bash", os.path.join(VERIF, "setup.sh")], timeout=1800, cwd=VERIF)   # locks itself
         lock = open(os.path.join(COQ, ".lock"), "w")
         fcntl.flock(lock, fcntl.LOCK_EX)
         try:
-            rc, out, err = sh(["bash", os.path.join(VERIF, "setup.sh")], timeout=1800, cwd=VERIF)
+            if targets:
+                files = require_closure([t[:-1] if t.endswith(".vo") else t for t in targets])
+                proj = os.path.join(COQ, f"_CoqProject.{self.prop}")
+                body = "-Q theories TL\n" + "\n".join(files) + "\n"
+                if not os.path.exists(proj) or open(proj).read() != body or not os.path.exists(os.path.join(COQ, f"Makefile.{self.prop}")):
+                    open(proj, "w").write(body)
+                    sh(["coq_makefile", "-f", proj, "-o", f"Makefile.{self.prop}"], timeout=60, cwd=COQ)
+                rc, out, err = sh(["make", "-f", f"Makefile.{self.prop}", "-j16"] + list(targets), timeout=1800, cwd=COQ)
         finally:
             fcntl.flock(lock, fcntl.LOCK_UN)
             lock.close()
-        ok = rc == 0
+        ok = rc == 0 and all(os.path.exists(os.path.join(COQ, t)) for t in targets)
         detail = ""
         if not ok:
             m = re.findall(r'File "([^"]+)", line (\d+).*?\n(Error:.*?)(?:\n\n|\Z)', out + err, flags=re.S)
             detail = "; ".join(f"{os.path.basename(a)}:{b} {c[:200]}" for a, b, c in m[:3]) or (out + err)[-600:]
-        self.oblige("build:table-independent theories (make)", ok, detail)
-        self.checker_cmds.append("cd coq && coq_makefile -f _CoqProject -o Makefile && make -j16")
+        self.oblige("build:table-independent theories (make %s)" % " ".join(targets), ok, detail)
+        self.checker_cmds.append("cd coq && coq_makefile -f _CoqProject -o Makefile && make -j16 " + " ".join(targets))
         return ok
 
     def coqc(self, path: str, timeout: int = 300, extra_q: list[tuple[str, str]] = ()):
@@ -303,6 +337,16 @@ class Run:
             for t in theorems:
                 self.oblige(f"theorem:{t}", False, "file does not compile: " + detail[:200])
         return ok
+
+    def check_props(self, relpath: str, theorems: list[str], timeout: int = 600) -> bool:
+        """Re-compile a table-independent Props file (coq/theories/Props/Cxx.v) in the build dir so that
+        its Print Assumptions output is captured on this run; one obligation per theorem."""
+        src = os.path.join(THEORIES, relpath)
+        name = "Run_" + os.path.basename(relpath)
+        text = open(src).read()
+        missing = [t for t in theorems if not re.search(r"(Theorem|Lemma|Corollary)\s+%s\b" % re.escape(t), text)]
+        self.oblige(f"props:{relpath} states all claimed theorems", not missing, "missing: " + ", ".join(missing))
+        return self.compile_dyn(name, text=text, theorems=theorems, timeout=timeout)
 
     def coq_eval(self, name: str, text: str, timeout: int = 600) -> list[str] | None:
         dst = os.path.join(self.build, name)
@@ -470,7 +514,7 @@ def main(argv=None):
 def drive(run: Run, mod):
     """The six steps of DESIGN section 2."""
     run.lint()
-    if run.base_make():
+    if run.base_make(getattr(mod, "COQ_TARGETS", ())):
         mod.prove(run)          # reflect + compile per-run proof files
         mod.correspond(run)     # model vs implementation
     # known findings: replay each on the implementation
